@@ -173,6 +173,27 @@ where
             }
         }
     }
+    // in the crash / fault profiles index files may also be stale leftovers of the crash: which of
+    // them count is not tracked there, only that nothing but whole index files is missing
+    let fault_phase = matches!(phase, "crash" | "fault" | "cancel" | "bitflip");
+    if fault_phase && snap.disk_used != exp_disk {
+        let blob_total: u64 = attached.iter().map(|b| files.get(&format!("{}.{}.blob", PREFIX, b)).copied().unwrap_or(0)).sum();
+        let idx: Vec<u64> = attached.iter().map(|b| files.get(&format!("{}.{}.index", PREFIX, b)).copied().unwrap_or(0)).filter(|x| *x > 0).collect();
+        if snap.disk_used >= blob_total && idx.len() <= 16 {
+            let want = snap.disk_used - blob_total;
+            let mut ok = false;
+            for mask in 0..(1u32 << idx.len()) {
+                let s: u64 = idx.iter().enumerate().filter(|(i, _)| mask & (1 << i) != 0).map(|(_, v)| *v).sum();
+                if s == want {
+                    ok = true;
+                    break;
+                }
+            }
+            if ok {
+                exp_disk_attached_only = snap.disk_used;
+            }
+        }
+    }
     if snap.disk_used != exp_disk {
         let cause = if snap.disk_used == exp_disk_attached_only { "disk_used omits index files that exist on disk while the blob's index is held in memory" } else { "disk_used differs from the size of the files on disk" };
         ctx.violate(&p, "disk-used", cause, format!("phase={} got {} expected {} (counting only indexes not held in memory: {}); {}", phase, snap.disk_used, exp_disk, exp_disk_attached_only, note));
